@@ -226,6 +226,15 @@ def vocab_cases(st, t):
         if vcs == ["numericClass"]:
             unit = v.a_unit(t) if ucs else None
             both("non-numeric-value", t.name + "/abc" + (" " + unit if unit else ""))
+        if vcs == ["numericClass"]:
+            # conforming numbers in scientific notation, exponent letter in either case
+            unit = v.a_unit(t) if ucs else None
+            for lit in ("1E3", "2.5E-2", "1e3"):
+                out.append(("valid:value:exponent", t.name + "/" + lit + (" " + unit if unit else ""), None, (False, True)))
+        if not vcs and not ucs:
+            # a value-taking tag whose placeholder declares no class at all still has the tag character rules
+            both("forbidden-char-in-value", t.name + "/a$b")
+            both("forbidden-char-in-value", t.long + "/Ab$c")
         if vcs and set(vcs) <= {"nameClass", "numericClass"} and not ucs:
             # a value that no declared class accepts (not a number, and '$' is not a name character)
             both("forbidden-char-in-value", t.name + "/a$b")
